@@ -32,10 +32,15 @@ struct C09 {
 
   struct Exp { int app = 0; bool app_free = false; std::vector<int> modes; int resetreq = 0; std::vector<Frame> tx; bool tx_free = false; bool unordered = false; };
 
+  // random mode: the CAN driver may refuse the one frame a step transmits - that frame is lost, the node's state and everything else follow the state machine all the same
+  bool inject_send_fault = false; int send_faults = 0;
   void run(const char *what, const std::function<void()> &act, Exp &e, int newmode) {
     s.clear_tx(); s.clear_ev();
-    VLOG(c, "[%s] %s", MN[mode], what);
+    bool lost = inject_send_fault && !e.tx_free && e.tx.size() == 1 && mode != STOPPED_NODE; inject_send_fault = false;
+    VLOG(c, "[%s] %s%s", MN[mode], what, lost ? "   (the CAN driver refuses the frame)" : "");
+    if (lost) { s.can_send_fail = 1; e.tx.clear(); send_faults++; }
     act();
+    s.can_send_fail = 0;
     if (mode == STOPPED_NODE) { s.clear_tx(); s.clear_ev(); return; }     // "unless the node has been stopped": nothing is asserted any more
     int app = 0, rr = 0; std::vector<int> modes;
     for (auto &v : s.ev) { if (v.k == EV_CANRX) app++; else if (v.k == EV_MODE) modes.push_back((int)v.a); else if (v.k == EV_RESETREQ) rr++; }
@@ -186,6 +191,7 @@ struct C09 {
     if (mode_changes >= 2 && probes_non_preop >= 1) c.nontrivial = true;
     c.cls(mode_changes >= 2 ? "two-or-more-mode-changes" : "fewer-mode-changes");
     if (probes_non_preop) c.cls("probe-outside-pre-operational");
+    if (send_faults) c.cls("frame-refused-by-the-can-driver");
     if (postponed) c.cls("tpdo-postponed-by-inhibit-time"); if (postponed_dropped) c.cls("left-operational-with-postponed-tpdo");
   }
 };
@@ -201,6 +207,7 @@ void case_random(Ctx &c) {
   while (!c.t.exhausted() && steps < 200) {
     steps++; c.ops++;
     uint32_t k = c.t.below(34);
+    if (c.t.chance(20)) x.inject_send_fault = true;
     if (k == 29 && !c.t.chance(40)) k = 28;                     // node stop ends all checking: keep it rare
     if (k == 30) x.nmt_cmd(c.t.byte(), c.t.coin() ? x.s.nodeid : c.t.byte());
     else if (k == 31) x.probe_hb((uint8_t[]){0, 127, 5, 4, 77}[c.t.below(5)]);
@@ -213,7 +220,7 @@ void case_random(Ctx &c) {
 
 Registrar reg(Prop{
     "C09",
-    "Cases: a node with one SDO server, an event-driven TPDO (random mode: with an inhibit time of 0..5 ticks, so that a postponed transmission can fall due after OPERATIONAL was left) and a synchronous TPDO, an asynchronous RPDO, a heartbeat consumer entry, SYNC consumer, LSS, EMCY and a heartbeat producer of 1 tick; "
+    "Cases: a node with one SDO server, an event-driven TPDO (random mode: with an inhibit time of 0..5 ticks, so that a postponed transmission can fall due after OPERATIONAL was left) and a synchronous TPDO (random mode also lets the CAN driver refuse the single frame of a step: the frame is lost, nothing else changes), an asynchronous RPDO, a heartbeat consumer entry, SYNC consumer, LSS, EMCY and a heartbeat producer of 1 tick; "
     "operation sequences over a 30-letter alphabet {NMT command {1,2,128,129,130} x {own id, 0}, start/reset to another id, unknown command specifiers, CONmtSetMode x3, CONodeStart, CONmtReset x2, one probe per service "
     "(SDO read, RPDO frame, SYNC, heartbeat of the monitored node, LSS, unrelated id, EMCY set/clear, TPDO trigger, tick), CONodeStop}: enumerated exhaustively to the depth bound (node id 1) and randomly up to 200 ops with node ids 1..127, random command specifiers/targets and heartbeat states. "
     "Oracle: reference CiA 301 slave state machine: mode after every op, exact mode-change and reset-request callback sequences, exactly the expected frames (boot-up once per INIT->PRE-OP entry; SDO answer only in PRE-OP/OP; TPDOs only in OP; EMCY only in PRE-OP/OP; heartbeat with the state byte in PRE-OP/OP/STOPPED; LSS answer always), "
@@ -221,7 +228,7 @@ Registrar reg(Prop{
     "Non-trivial: >= 2 mode changes and >= 1 probe in a state other than PRE-OPERATIONAL. Distinct = distinct decoded choice sequence.",
     {
         Mode{"enum", case_enum, true, 0, 0, 4, 5, 0, 0},
-        Mode{"random", case_random, false, 1500000, 20000000, 0, 0, 220, 400},
+        Mode{"random", case_random, false, 1500000, 20000000, 0, 0, 300, 520},
     },
     {"CONmtSetMode is not called in INIT (the documented way out of INIT is CONodeStart/boot-up)", "in STOPPED and after CONodeStop, whether an unclaimed frame reaches the application is not constrained (statement: 'unless the node has been stopped')",
      "the precise heartbeat-consumer change semantics are C11's business; here only claiming of the frame is checked"}});
